@@ -108,6 +108,25 @@ func runC19(args []string) error {
 				s.Ops = append(s.Ops, c19Op{"query", pick(rng.Intn(40), rng.Intn(2000), int(rng.Int63()), 62, 63, 64, 1<<31-1, 1<<31, 1<<32)})
 			}
 		}
+		if i%25 == 7 {
+			// a long outage: the stateful counter goes far beyond every power-of-two threshold (64, 256, 1024, 2048; now
+			// and then 32768, 65536), and then the per-attempt query must still answer for the n it is asked about
+			k := pick(70, 130, 300, 1100, 1100, 2100, 2100, 4200)
+			if i%600 == 7 {
+				k = pick(33000, 66000)
+			}
+			s.Ops = s.Ops[:0]
+			for j := 0; j < k; j++ {
+				s.Ops = append(s.Ops, c19Op{"wait", 0})
+				if j%97 == 96 {
+					s.Ops = append(s.Ops, c19Op{"query", pick(0, 1, 2, 5, 13, 14, 64, 1023, 1024, 1025, j)})
+				}
+			}
+			for _, n := range []int{0, 1, 2, 3, 7, 13, 14, 63, 64, 1023, 1024, 1025, 5000, 1<<31 - 1} {
+				s.Ops = append(s.Ops, c19Op{"query", n})
+			}
+			s.Ops = append(s.Ops, c19Op{"wait", 0}, c19Op{"reset", 0}, c19Op{"query", 0}, c19Op{"query", 3}, c19Op{"wait", 0}, c19Op{"wait", 0})
+		}
 		tid++
 		c.recordScen(1000000+tid, s)
 		c19Run(w, 1000000+tid, s)
